@@ -67,14 +67,14 @@ func init() {
 		ID:    "C13",
 		Level: "fault_enumeration",
 		Rule: "fault enumeration: every (junk kind, placement) cell - 5 irrelevant kinds and 5 schema-conversion failures x {own file, first/middle/last document of a valid file}, 6 unreadable/malformed file kinds (two syntax errors, HTML, binary, dangling symlink, symlink loop), 5 harmless files (empty .yaml, .txt, .md, .png, non-manifest .json), a fatal duplicate-NetworkPolicy conflict - is applied to sampled valid worlds (case index mod number of cells picks the cell); " +
-			"oracles over paired real runs: list(valid+junk) = list(valid) point-wise, severe(with) - severe(without) >= injected bad items, stop-on-error + severe => empty result or error on ConnlistFromDirPath, ConnlistFromResourceInfos and diff, fatal => error and no result for list and diff, diff(valid+junk, valid) has no added/removed/changed entry; " +
+			"oracles over paired real runs: list(valid+junk) = list(valid) point-wise, severe(with) - severe(without) >= injected bad items for list AND for diff with the junk in dir1, in dir2 and different junk on both sides, stop-on-error + severe => empty result or error on ConnlistFromDirPath, ConnlistFromResourceInfos and diff, fatal => error and no result for list and diff, diff(valid+junk, valid) has no added/removed/changed entry; " +
 			"non-trivial = the valid twin's report is non-empty and the cell injects a bad or fatal item; distinct = world hash + cell",
 		Assumptions:       []string{"a syntax error ends the decoding of its own file, so broken content is injected as whole files only", "an empty file and files without manifest extension are neither errors nor inputs"},
 		NumCases:          func(tier string, _ int64) int { return tierN(tier, len(c13Cells())*12, len(c13Cells())*400) },
 		Run:               runC13,
 		MinNonTrivial:     100,
 		MinEffectiveShare: 0.5,
-		RequiredEvents:    map[string]int64{"cells_run": 500, "relation_points_compared": 20000, "severe_entries_attributed": 100, "stop_on_error_runs_with_nonempty_twin": 50, "stop_on_error_diff_runs_with_nonempty_twin": 100, "fatal_cells": 10, "bad_items_injected": 200},
+		RequiredEvents:    map[string]int64{"cells_run": 500, "relation_points_compared": 20000, "severe_entries_attributed": 100, "stop_on_error_runs_with_nonempty_twin": 50, "stop_on_error_diff_runs_with_nonempty_twin": 100, "fatal_cells": 10, "bad_items_injected": 200, "diff_error_runs": 400, "diff_severe_entries_attributed": 50, "diff_two_sided_junk_runs": 30},
 	})
 }
 
@@ -243,6 +243,64 @@ func runC13(c *run.Ctx) {
 			if e.Severe && (strings.Contains(e.Text, filepath.Base(junkName)) || strings.Contains(e.Loc, filepath.Base(junkName))) {
 				r.Ev("severe_entries_attributed", 1)
 				break
+			}
+		}
+		// (2b) the same for diff, with the junk on either side and different junk on both sides
+		sev := func(d *observe.DiffResult) int {
+			n := 0
+			for _, e := range d.Errs {
+				if e.Severe {
+					n++
+				}
+			}
+			return n
+		}
+		mentions := func(d *observe.DiffResult, name string) int {
+			n := 0
+			for _, e := range d.Errs {
+				if e.Severe && (strings.Contains(e.Text, name) || strings.Contains(e.Loc, name)) {
+					n++
+				}
+			}
+			return n
+		}
+		dBase := observe.Diff(valid, valid, observe.DiffOpts{})
+		for _, side := range []string{"dir1", "dir2"} {
+			d1, d2 := junk, valid
+			if side == "dir2" {
+				d1, d2 = valid, junk
+			}
+			dd := observe.Diff(d1, d2, observe.DiffOpts{})
+			r.Ev("diff_error_runs", 1)
+			if dd.Panic != "" {
+				r.Violate("c13.total", "c13.total:any:panic", "a result or an error", "panic: "+dd.Panic, tag+" diff "+side)
+				continue
+			}
+			if sev(dd)-sev(dBase) < injected {
+				texts := []string{}
+				for _, e := range dd.Errs {
+					texts = append(texts, fmt.Sprintf("[severe=%v] %s %s", e.Severe, e.Text, e.Loc))
+				}
+				r.Violate("c13.report", "c13.report:"+cell.Kind+":diff-not-severe-"+side, fmt.Sprintf(">= %d additional severe entries in DiffAnalyzer.Errors() with the junk in %s", injected, side),
+					fmt.Sprintf("%d additional; entries: %s", sev(dd)-sev(dBase), strings.Join(texts, " || ")), tag)
+			} else if cell.Placement == "file" && mentions(dd, filepath.Base(junkName)) > 0 {
+				r.Ev("diff_severe_entries_attributed", 1)
+			}
+		}
+		if cell.Placement == "file" && junkFiles[cell.Kind] != "" {
+			// a different broken file on the other side: each must be reported
+			junk2 := c.Dir("junk2")
+			_ = world.WriteDocs(junk2, docs, world.LayoutCanonial, nil)
+			other := "mm-other-broken.yaml"
+			_ = os.WriteFile(filepath.Join(junk2, other), []byte(junkFiles["syntax2"]+"# other\n"), 0o644)
+			dd := observe.Diff(junk, junk2, observe.DiffOpts{})
+			if dd.Panic == "" {
+				a, b := mentions(dd, filepath.Base(junkName)), mentions(dd, other)
+				r.Ev("diff_two_sided_junk_runs", 1)
+				if a < 1 || b < 1 {
+					r.Violate("c13.report", "c13.report:"+cell.Kind+":diff-two-sided", "each side's broken file reported as severe (at least once each)",
+						fmt.Sprintf("%s mentioned %d x, %s mentioned %d x", filepath.Base(junkName), a, other, b), tag)
+				}
 			}
 		}
 		// (3) stop-on-error: no partial report
